@@ -73,6 +73,15 @@ def handle (cmd : String) (args : List String) : Option String :=
     match autoNoPrev orc specs shape with
     | .ok r => pure ("ok " ++ fmtSpecs r)
     | .error e => pure (fmtErr e)
+  | "ck.auto_layout", [orc, specs, shape] => do
+    -- `_convert_int_chunk_to_tuple(shape, auto_chunks(...))`: the layout, not its int/tuple representation
+    let orc ← parseOrc? orc; let specs ← parseSpecs? specs; let shape ← parseIntList? shape
+    match autoNoPrev orc specs shape with
+    | .error e => pure (fmtErr e)
+    | .ok r =>
+      match convertAll r shape with
+      | .ok ll => pure ("ok " ++ fmtIntLL ll)
+      | .error e => pure (fmtErr e)
   | "ck.norm", [orc, lim, specs, shape] => do
     let orc ← parseOrc? orc; let lim ← parseOptInt? lim
     let specs ← parseSpecs? specs; let shape ← parseIntList? shape
